@@ -27,8 +27,8 @@ class _Fn:
 class _Obj:
     _verif_kind = "obj"
 
-    def __init__(self, name, **attrs):
-        self._verif_name = name
+    def __init__(self, _verif_name, **attrs):
+        self._verif_name = _verif_name
         self.__dict__.update(attrs)
 
 
@@ -39,7 +39,7 @@ FUNCS = {
     "g": _Fn("g", 2, (3, 5, 7), {"k1": 13, "k2": 17}),
 }
 OBJS = {
-    "o1": _Obj("o1", p=5, q=Fraction(1, 2)),
+    "o1": _Obj("o1", p=5, q=Fraction(1, 2), aggregate=7, name=3),
     "o2": _Obj("o2", p=-2),
 }
 
